@@ -98,17 +98,39 @@ def kupdateMode (k : KSt) (m : Mode) (mask : Option Mask) (w : WOpts) : KSt × R
           let new := written Mode.blank m mask w
           ({ k with recs := kinsert m.id new k.recs }, .ok (some new))
 
-/-- `deleteMode`: the guard compares the argument with the ACTIVE RECORD's id; `modes.Delete` goes by key -/
+/-- `modes.Delete(id, opts...)` as `deleteMode` reaches it once its guards have passed -/
+def kdeleteBody (k : KSt) (id : String) (allowMissing : Bool) (d : DOpts) : KSt × Res :=
+  match kfind k id with
+  | none => if allowMissing then (k, .ok none) else (k, .err .notFound)
+  | some old =>
+    match dcheckFails d old with
+    | some c => (k, .err c)
+    | none =>
+      if expectedFails d.expected old then (k, .err .failedPrecondition)
+      else ({ k with recs := kerase id k.recs }, .ok none)
+
+/-- the second and third guard of `deleteMode` (00bc77e, c078347): the mode stored under the id carries the active
+mode's id, or the active mode's id finds a stored mode that carries the same id as the one the id finds -/
+def knamesActive (k : KSt) (id : String) : Bool :=
+  match kfind k id with
+  | none => false
+  | some st =>
+    decide (st.id = k.active.id) ||
+      match kfind k k.active.id with
+      | none => false
+      | some cur => decide (cur.id = st.id)
+
+/-- `deleteMode`: the guards compare the argument, then the record stored under it, with the ACTIVE RECORD's id;
+`modes.Delete` goes by key -/
 def kdeleteMode (k : KSt) (id : String) (allowMissing : Bool) (d : DOpts) : KSt × Res :=
   if id = k.active.id then (k, .err .failedPrecondition)
-  else match kfind k id with
-    | none => if allowMissing then (k, .ok none) else (k, .err .notFound)
-    | some old =>
-      match dcheckFails d old with
-      | some c => (k, .err c)
-      | none =>
-        if expectedFails d.expected old then (k, .err .failedPrecondition)
-        else ({ k with recs := kerase id k.recs }, .ok none)
+  else if knamesActive k id then (k, .err .failedPrecondition)
+  else kdeleteBody k id allowMissing d
+
+/-- `deleteMode` before 00bc77e: only the spelled id was compared with the active mode's id -/
+def kdeleteModeUnfixed (k : KSt) (id : String) (allowMissing : Bool) (d : DOpts) : KSt × Res :=
+  if id = k.active.id then (k, .err .failedPrecondition)
+  else kdeleteBody k id allowMissing d
 
 def ksetActive (k : KSt) (m : Mode) : KSt × Res :=
   match kfind k m.id with
@@ -387,5 +409,16 @@ theorem keys_kstore (key : String) (m : Mode) (l : List Rec) : (kstore key m l).
 
 theorem keys_kerase (key : String) (l : List Rec) (h : (l.map (·.1)).Nodup) : ((kerase key l).map (·.1)).Nodup :=
   List.Nodup.sublist (List.Sublist.map _ List.filter_sublist) h
+
+theorem kfindL_some {l : List Rec} {key : String} {m : Mode} (h : kfindL l key = some m) : (key, m) ∈ l := by
+  unfold kfindL at h
+  cases hf : l.find? (fun e => decide (e.1 = key)) with
+  | none => simp [hf] at h
+  | some e =>
+    simp only [hf, Option.map_some, Option.some.injEq] at h
+    have hk : e.1 = key := by simpa using List.find?_some hf
+    have hm := List.mem_of_find?_eq_some hf
+    rw [← hk, ← h]
+    exact hm
 
 end ScVerif.C19
